@@ -159,3 +159,50 @@ Example C15_index_steps_example :
   first_fail2 doc [SDot [97%N]; SDot [98%N]] = Some (SDot [98%N], Some ("object", "[]interface {}"))%string /\
   first_fail2 doc [SIdx [48%N]] = Some (SIdx [48%N], Some ("array", "map[string]interface {}"))%string.
 Proof. repeat split; vm_compute; reflexivity. Qed.
+
+(* … followed by filter functions (ErrFuns.v): `$` steps `.f().g()` fails at the first step that cannot be taken, else at the FIRST
+   function that fails on what the functions before it returned — "function failed" naming that call as written — and succeeds
+   when no step and no function fails. *)
+From JP Require Import FunParse ErrFuns.
+Theorem C15_failing_function_from_text : forall cfg parse_float regex_ok ffun afun regex_match,
+  (forall f v w, small v -> ffun f v = Some w -> small w) ->
+  (forall f l w, Forall small l -> afun f l = Some w -> small w) ->
+  forall s r fs doc st, forallb step_ok (s :: r) = true -> forallb is_loc_step (s :: r) = true ->
+  forallb fname_ok fs = true -> forallb (fun_known cfg) fs = true -> small doc -> ok st ->
+  exists t, parse_with cfg parse_float regex_ok jsonpath_grammar (chain_fun_path (map RPlain (s :: r)) fs) = ParseOk t /\
+            match walk_err ffun doc (s :: r) fs with
+            | None => exists rs, fst (eval_run ffun afun regex_match t doc st) = OOk rs
+            | Some (FStep x None) => exists b, fst (eval_run ffun afun regex_match t doc st) = OErr (EMember b) /\ text b = step_text x
+            | Some (FStep x (Some (ex, ty))) => exists b, fst (eval_run ffun afun regex_match t doc st) = OErr (EType b ex ty) /\ text b = step_text x
+            | Some (FFun f) => exists b, fst (eval_run ffun afun regex_match t doc st) = OErr (EFunc b) /\ text b = text_of (fun_text f)
+            end.
+Proof. exact fun_path_error. Qed.
+Print Assumptions C15_failing_function_from_text.
+
+(* `$.a[0].f().g()` with f the identity and g failing on numbers: g is the one named; with the member missing: the step *)
+Example C15_failing_function_example :
+  let doc := VObj [("a", VArr [VNum (num_of_Z 7)])]%string in
+  let ffun := fun (f : string) (v : value) => if String.eqb f "f" then Some v else None in
+  walk_err ffun doc [SDot [97%N]; SIdx [48%N]] [[102%N]; [103%N]] = Some (FFun [103%N]) /\
+  walk_err ffun doc [SDot [97%N]; SIdx [48%N]] [[102%N]; [102%N]] = None /\
+  walk_err ffun doc [SDot [98%N]; SIdx [48%N]] [[103%N]] = Some (FStep (SDot [98%N]) None).
+Proof. repeat split; vm_compute; reflexivity. Qed.
+
+(* … with an aggregate function first (ErrAggs.v): `$` steps `.g().f()…` — the first step that cannot be taken; else the aggregate,
+   when it fails on its argument list (the elements of the array reached, or the single value reached); else the first filter
+   function that fails on what came before it. *)
+From JP Require Import AggParse AggAddr ErrAggs.
+Theorem C15_failing_aggregate_from_text : forall cfg parse_float regex_ok ffun afun regex_match,
+  (forall f v w, small v -> ffun f v = Some w -> small w) ->
+  (forall f l w, Forall small l -> afun f l = Some w -> small w) ->
+  forall s r g fs doc st, forallb step_ok (s :: r) = true -> forallb is_loc_step (s :: r) = true ->
+  forallb fname_ok (g :: fs) = true -> agg_known cfg g = true -> forallb (fun_known cfg) fs = true -> small doc -> ok st ->
+  exists t, parse_with cfg parse_float regex_ok jsonpath_grammar (chain_fun_path (map RPlain (s :: r)) (g :: fs)) = ParseOk t /\
+            match agg_walk_err ffun afun doc (s :: r) g fs with
+            | None => exists rs, fst (eval_run ffun afun regex_match t doc st) = OOk rs
+            | Some (FStep x None) => exists b, fst (eval_run ffun afun regex_match t doc st) = OErr (EMember b) /\ text b = step_text x
+            | Some (FStep x (Some (ex, ty))) => exists b, fst (eval_run ffun afun regex_match t doc st) = OErr (EType b ex ty) /\ text b = step_text x
+            | Some (FFun f) => exists b, fst (eval_run ffun afun regex_match t doc st) = OErr (EFunc b) /\ text b = text_of (fun_text f)
+            end.
+Proof. exact agg_path_error. Qed.
+Print Assumptions C15_failing_aggregate_from_text.
